@@ -37,3 +37,20 @@ Theorem C17_collection_numbers_injective : forall (rs : list request) n1 n2 num,
   In (n1, num) (s_cols db) -> In (n2, num) (s_cols db) -> n1 = n2.
 Proof. exact collection_numbers_injective. Qed.
 Print Assumptions C17_collection_numbers_injective.
+
+(* ResetCollection removes exactly one collection's data: afterwards the store holds precisely the datatype documents,
+   operations and clients that do not carry the collection's number; collection names and numbers are unchanged *)
+From Orda.Proofs Require Import ResetFacts.
+Theorem C17_reset_removes_exactly_one_collection : forall db name n, alookup str_eqb name (s_cols db) = Some n ->
+  let db' := reset_collection db name in
+  s_cols db' = s_cols db /\
+  (forall d, In d (s_dts db') <-> In d (s_dts db) /\ dd_col d <> n) /\
+  (forall o, In o (s_ops db') <-> In o (s_ops db) /\ od_col o <> n) /\
+  (forall c, In c (s_clients db') <-> In c (s_clients db) /\ snd c <> n).
+Proof. exact reset_exact. Qed.
+Print Assumptions C17_reset_removes_exactly_one_collection.
+
+(* and the store stays well-formed under requests and resets in any order *)
+Theorem C17_store_invariant_with_resets : forall rs : list request2, LogInv (fold_left serve2 rs sdb_init).
+Proof. exact log_invariant_with_resets. Qed.
+Print Assumptions C17_store_invariant_with_resets.
